@@ -1997,3 +1997,226 @@ Proof.
     destruct (send_session h1 sid (SError code)) as [h2 o2]. cbn [fst snd].
     eapply Jg_geq; [apply Hgeq|]. apply (Jg_quiet none2 no1 h1 g (h2, o2)); assumption.
 Qed.
+
+(* ------------------------------------------------------------------ messages, room API, housekeeping *)
+Lemma Jg_ret xr xs h g : Jg xr xs h g -> Jg xr xs (fst (h, @nil out)) (gouts g (snd (h, @nil out))).
+Proof. auto. Qed.
+
+Lemma Jg_pub_only xr xs h g subj m : neutral_msg m = true -> pub_shape (mkpub subj m (h_clock h)) -> Jg xr xs h g ->
+  Jg xr xs (fst (publish h subj m, @nil out)) (gouts g (snd (publish h subj m, @nil out))).
+Proof. intros. cbn [fst snd gouts fold_left]. now apply Jg_publish_neutral. Qed.
+
+Ltac pubonly := cbn [fst snd]; rewrite gouts_nil; apply Jg_publish_neutral; [reflexivity|exact I|try assumption].
+
+Lemma Jg_do_message xr xs h g sid s kindn to tag cb : Jg xr xs h g ->
+  Jg xr xs (fst (do_message h sid s kindn to tag cb)) (gouts g (snd (do_message h sid s kindn to tag cb))).
+Proof.
+  intros HJ. unfold do_message. cbv zeta. destruct to as [i|u| |].
+  - destruct i as [n|n|k|n]; try (pubonly).
+    destruct (get_sess h n) as [t|]; [|pubonly].
+    destruct (cb && negb (N.eqb (s_backend t) (s_backend s))); [exact HJ|]. destruct (N.eqb n sid); [exact HJ|].
+    destruct (s_kind t); (apply (Jg_quiet xr xs h g); [now apply quiet_send_irr|exact HJ]).
+  - destruct (N.eqb u 0); [exact HJ|]. destruct (N.eqb u (sess_userid h sid s)); [exact HJ|].
+    pubonly.
+  - destruct (s_room s); [|exact HJ]. pubonly.
+  - destruct (s_room s); [|exact HJ]. pubonly.
+Qed.
+
+Lemma Jg_fold_publish {A} xr xs g (f : hub -> A -> hub) l :
+  (forall hh a, Jg xr xs hh g -> Jg xr xs (f hh a) g) -> forall h, Jg xr xs h g -> Jg xr xs (fold_left f l h) g.
+Proof. intros Hf. induction l as [|a l IH]; intros h HJ; cbn [fold_left]; auto. Qed.
+
+Lemma Jg_do_api xr xs h g b room q : Jg xr xs h g ->
+  Jg xr xs (fst (do_api h b room q)) (gouts g (snd (do_api h b room q))).
+Proof.
+  intros HJ. unfold do_api. cbv zeta. destruct q as [|users rsessions|tag|l|l|ic|tag]; try (pubonly).
+  - cbn [fst snd]. rewrite gouts_nil. apply Jg_fold_publish.
+    + intros hh rs Hh. destruct (aget (h_rs2 hh) (1000000 + rs)); [|exact Hh]. now apply Jg_publish_neutral.
+    + apply Jg_fold_publish; [|exact HJ]. intros hh u Hh. now apply Jg_publish_neutral.
+  - match goal with |- context [match ?l' with [] => _ | _ => _ end] => destruct l' eqn:El end; [exact HJ|].
+    pubonly. apply Jg_fold_publish; [|exact HJ].
+    intros hh [[i ic] pm] Hh. destruct i; try exact Hh. destruct pm; [|exact Hh]. now apply Jg_publish_neutral.
+  - match goal with |- context [match ?l' with [] => _ | _ => _ end] => destruct l' eqn:El end; [exact HJ|].
+    pubonly.
+Qed.
+
+(* WF and the invariant together, through a function that returns outputs *)
+Definition WJ (xr : N * N -> Prop) (xs : N -> Prop) (h : hub) (g : ghost) : Prop := WFg xr none1 h /\ Jg xr xs h g.
+Definition WJr xr xs (g : ghost) (r : hub * list out) : Prop := WJ xr xs (fst r) (gouts g (snd r)).
+
+Lemma WJ_fold_sessions xr xs l f :
+  (forall hh gg x, WJ xr xs hh gg -> WJr xr xs gg (f hh x)) ->
+  forall h g, WJ xr xs h g -> WJr xr xs g (fold_sessions h l f).
+Proof.
+  intros Hf. induction l as [|x l IH]; intros h g HW; [exact HW|].
+  rewrite fold_sessions_cons. specialize (Hf h g x HW). destruct (f h x) as [h1 o1]. unfold WJr in Hf. cbn [fst snd] in Hf.
+  specialize (IH h1 (gouts g o1) Hf). destruct (fold_sessions h1 l f) as [h2 o2]. unfold WJr in *. cbn [fst snd] in *.
+  now rewrite gouts_app.
+Qed.
+
+Lemma WJ_close_session xr xs h g sid : WJ xr xs h g -> WJr xr xs g (close_session h sid).
+Proof. intros [W HJ]. split; [now apply wf_close_session|now apply (Jg_close_session xr none1)]. Qed.
+Lemma WJ_send_conn xr xs h g c m : msg_irr m = true -> WJ xr xs h g -> WJr xr xs g (send_conn h c m).
+Proof. intros Hm [W HJ]. split; [now apply wf_send_conn|now apply Jg_send_conn]. Qed.
+Lemma WJ_send_irr xr xs h g x m : msg_irr m = true -> WJ xr xs h g -> WJr xr xs g (send_session h x m).
+Proof. intros Hm [W HJ]. split; [now apply wf_send_session|now apply Jg_send_irr]. Qed.
+Lemma WJ_seq xr xs g r1 (f : hub -> hub * list out) :
+  WJr xr xs g r1 -> (forall gg, WJ xr xs (fst r1) gg -> WJr xr xs gg (f (fst r1))) ->
+  WJr xr xs g (let '(h1, o1) := r1 in let '(h2, o2) := f h1 in (h2, o1 ++ o2)).
+Proof.
+  destruct r1 as [h1 o1]. intros H1 Hf. unfold WJr in H1. cbn [fst snd] in *. specialize (Hf _ H1).
+  destruct (f h1) as [h2 o2]. unfold WJr in *. cbn [fst snd] in *. now rewrite gouts_app.
+Qed.
+
+Lemma WJ_do_tick xr xs h g secs : WJ xr xs h g -> WJr xr xs g (do_tick h secs).
+Proof.
+  intros HW. unfold do_tick.
+  assert (H1 : WJr xr xs g (if hub_expire_s <? secs then fold_sessions h (h_expired h) close_session else (h, []))).
+  { destruct (hub_expire_s <? secs); [|exact HW]. apply WJ_fold_sessions; [|exact HW]. intros hh gg x. apply WJ_close_session. }
+  destruct (if hub_expire_s <? secs then fold_sessions h (h_expired h) close_session else (h, [])) as [h1 o1].
+  unfold WJr in H1. cbn [fst snd] in H1.
+  match goal with |- context [if hub_anonymous_s <? secs then ?A else ?B] => assert (H2 : WJr xr xs (gouts g o1) (if hub_anonymous_s <? secs then A else B)) end.
+  { destruct (hub_anonymous_s <? secs); [|exact H1]. apply WJ_fold_sessions; [|exact H1]. intros hh gg x Hh.
+    destruct (get_sess hh x) as [s|]; [|exact Hh].
+    apply (WJ_seq xr xs gg (match s_conn s with Some c => send_conn hh c (SBye B_room_join_timeout) | None => (hh, []) end)
+                  (fun h3 => close_session h3 x)).
+    - destruct (s_conn s); [now apply WJ_send_conn|exact Hh].
+    - intros g' Hg'. now apply WJ_close_session. }
+  match goal with |- context [if hub_anonymous_s <? secs then ?A else ?B] => destruct (if hub_anonymous_s <? secs then A else B) as [h2 o2] end.
+  unfold WJr in H2. cbn [fst snd] in H2.
+  match goal with |- context [if hub_hello_s <? secs then ?A else ?B] => assert (H3 : WJr xr xs (gouts (gouts g o1) o2) (if hub_hello_s <? secs then A else B)) end.
+  { destruct (hub_hello_s <? secs); [|exact H2]. apply WJ_fold_sessions; [|exact H2]. intros hh gg x Hh. now apply WJ_send_conn. }
+  match goal with |- context [if hub_hello_s <? secs then ?A else ?B] => destruct (if hub_hello_s <? secs then A else B) as [h3 o3] end.
+  unfold WJr in *. cbn [fst snd] in *. now rewrite !gouts_app.
+Qed.
+
+(* ------------------------------------------------------------------ internal clients: virtual sessions *)
+Lemma Jv_drop_virtual xr xs h g bus vs : Jv xr (or_sid xs vs) h g bus ->
+  (forall s, get_sess h vs = Some s -> is_virtual (s_kind s) = true) -> Jv xr xs h g bus.
+Proof.
+  intros V Hv x t Ht Hvt Hx. apply V; auto. intros [A| ->]; [contradiction|]. rewrite (Hv t Ht) in Hvt. discriminate.
+Qed.
+
+Lemma WJ_publish_neutral xr xs h g subj m : neutral_msg m = true -> pub_shape (mkpub subj m (h_clock h)) ->
+  WJ xr xs h g -> WJ xr xs (publish h subj m) g.
+Proof. intros A B [W HJ]. split; [eapply wf_equiv; [apply equiv_publish|exact W]|now apply Jg_publish_neutral]. Qed.
+
+Lemma WJ_same xr xs h h' g : same h h' -> WFg xr none1 h' -> WJ xr xs h g -> WJ xr xs h' g.
+Proof. intros E W' [W HJ]. split; [exact W'|eapply Jg_same; eauto]. Qed.
+
+Lemma J_do_internal h g c sid s q : WF h -> J h g -> get_sess h sid = Some s -> is_internal (s_kind s) = true ->
+  (forall p, In p (h_bus h) -> not_asj p) ->
+  J (fst (do_internal h c sid s q)) (gouts g (snd (do_internal h c sid s q))).
+Proof.
+  unfold WF, J. intros W HJ Hs Hint Hna. unfold do_internal.
+  assert (Hpub : forall hh sj m, WFg none2 none1 hh -> WFg none2 none1 (publish hh sj m)).
+  { intros. eapply wf_equiv; [apply equiv_publish|assumption]. }
+  destruct q as [v rn user flags incall|v rn flags incall|v rn|ic].
+  - (* add *)
+    set (k := (s_backend s, rn)). destruct (room_of h k) as [r|] eqn:Hr; [|exact HJ].
+    set (vs := next_id h). set (h0 := set_nextsid h vs).
+    assert (W0 : WFg none2 none1 h0) by (eapply wf_equiv; [apply equiv_nextsid|exact W]).
+    assert (Hfresh : get_sess h0 vs = None) by (exact (next_id_fresh h)).
+    match goal with |- context [mksess (s_backend s) (KVirtual sid v) user (Some k) ?rsv None None [] [] 0 ?ic ?fl [] [] [] 0] =>
+      set (vsess := mksess (s_backend s) (KVirtual sid v) user (Some k) rsv None None [] [] 0 ic fl [] [] [] 0);
+      set (vsess0 := mksess (s_backend s) (KVirtual sid v) user None rsv None None [] [] 0 ic fl [] [] [] 0) end.
+    set (r' := mkroom (nadd vs (r_members r)) (r_incall r) (r_sessdata r) (r_transient r) (r_props r)).
+    set (h1 := put_sess (set_rooms h0 (pset (h_rooms h0) k r')) vs vsess).
+    assert (W1 : WFg none2 none1 h1).
+    { assert (WA : WFg none2 none1 (put_sess h0 vs vsess0)).
+      { apply wf_new_session; auto. intros p v' Hk. injection Hk as <- <-. right. exists s. auto. }
+      assert (E : h1 = put_sess (set_rooms (put_sess h0 vs vsess0) (pset (h_rooms (put_sess h0 vs vsess0)) k r')) vs vsess).
+      { unfold h1, put_sess. hsimpl. now rewrite aset_aset. }
+      rewrite E. apply (wf_enter_room _ _ (put_sess h0 vs vsess0) vs vsess0 vsess k r'); auto.
+      - unfold get_sess, put_sess. hsimpl. apply aget_aset_same.
+      - assert (Hro : room_of (put_sess h0 vs vsess0) k = Some r) by exact Hr. rewrite Hro. reflexivity.
+      - assert (Hro : room_of (put_sess h0 vs vsess0) k = Some r) by exact Hr. rewrite Hro. reflexivity. }
+    assert (Hs1 : get_sess h1 vs = Some vsess) by (unfold h1, get_sess, put_sess; hsimpl; apply aget_aset_same).
+    set (h2 := set_vtable h1 (pset (h_vtable h1) (sid, v) vs)).
+    assert (W2 : WFg none2 none1 h2) by (apply (wf_set_vt h1 sid v vs vsess); auto).
+    match goal with |- context [rs_set h2 vs ?x] => set (h5 := rs_set h2 vs x) end.
+    assert (W5 : WFg none2 none1 h5) by (apply (wf_rs_set _ _ h2 vs _ vsess k); auto).
+    (* the invariant once the new member is announced *)
+    destruct (rs_set_proj h2 vs (2000000 + vs)) as (A1 & A2 & A3 & A4 & A5 & A6). fold h5 in A1, A2, A3, A4, A5, A6.
+    assert (Hg5 : forall x, get_sess h5 x = if N.eqb x vs then Some vsess else get_sess h x).
+    { intros x. unfold get_sess. rewrite A1. unfold h2, h1, put_sess. cbn [h_sessions set_vtable set_sessions set_rooms h0 set_nextsid]. apply aget_aset. }
+    assert (Hlt : h_nextsid h < vs) by apply next_id_gt.
+    assert (H5 : Jh h5 g).
+    { destruct HJ as [H V]. constructor.
+      - rewrite A1. unfold h2, h1, put_sess. cbn [h_sessions set_vtable set_sessions set_rooms h0 set_nextsid]. apply nodup_keys_aset, H.
+      - intros k' rr. unfold room_of. rewrite A2. unfold h2, h1, put_sess. cbn [h_rooms set_vtable set_sessions set_rooms h0 set_nextsid].
+        rewrite pget_pset. destruct (pair_eqb_spec k' k) as [->|]; [intros _; eapply (j_room0 _ _ H); eauto|apply (j_room0 _ _ H)].
+      - rewrite A3, A4. apply H.
+      - rewrite A3. apply H.
+      - intros p b rr x i t Hp _ Hm. rewrite A3 in Hp. exfalso. eapply (Hna p Hp); eauto.
+      - intros x Hx. rewrite A5 in Hx. apply H. cbn in Hx. lia.
+      - intros c0 x Hx. rewrite A5. pose proof (j_fresh_bind _ _ H c0 x Hx). cbn. lia.
+      - intros x t Ht. rewrite A5. rewrite Hg5 in Ht. destruct (N.eqb_spec x vs) as [->|]; [cbn; lia|].
+        pose proof (j_live _ _ H x t Ht). cbn. lia.
+      - intros x t Ht. rewrite A4. rewrite Hg5 in Ht. destruct (N.eqb_spec x vs) as [->|]; [injection Ht as <-; apply N.le_0_l|eapply (j_join _ _ H); eauto].
+      - intros x t k' Ht. rewrite Hg5 in Ht. destruct (N.eqb_spec x vs) as [->|]; [injection Ht as <-; intros Hk'; injection Hk' as <-; reflexivity|eapply (j_backend _ _ H); eauto].
+      - intros x t Ht. rewrite Hg5 in Ht. destruct (N.eqb_spec x vs) as [->|]; [injection Ht as <-; reflexivity|eapply (j_pc _ _ H); eauto].
+      - intros x t m Ht. rewrite Hg5 in Ht. destruct (N.eqb_spec x vs) as [->|]; [injection Ht as <-; intros []|eapply (j_nohello _ _ H); eauto].
+      - intros x t Ht. rewrite Hg5 in Ht. destruct (N.eqb_spec x vs) as [->|]; [injection Ht as <-; reflexivity|eapply (j_vconn _ _ H); eauto].
+      - intros x t c0 Ht. rewrite A6. rewrite Hg5 in Ht. destruct (N.eqb_spec x vs) as [->|]; [injection Ht as <-; discriminate|eapply (j_cs _ _ H); eauto].
+      - intros x t c0 Ht. rewrite Hg5 in Ht. destruct (N.eqb_spec x vs) as [->|]; [injection Ht as <-; discriminate|eapply (j_bind _ _ H); eauto]. }
+    set (h6 := publish h5 (SubjRoom (fst k) (snd k)) (ARoomEvent (SJoin [(vs, user)]))).
+    assert (J6 : Jg none2 no1 h6 g).
+    { split; [apply Jh_publish; [exact H5|exact I|]; intros b rr x i t _ Hm; discriminate|].
+      apply (Jv_drop_virtual none2 no1 h6 g (h_bus h6) vs).
+      - apply (Jv_member_added none2 (or_sid no1 vs) h h6 g k vs user (r_members r) (h_clock h5) (proj1 HJ)).
+        + apply Jv_exempt, HJ.
+        + now right.
+        + intros x Hx. change (get_sess h6 x) with (get_sess h5 x). rewrite Hg5. destruct (N.eqb_spec x vs); [contradiction|reflexivity].
+        + intros M HM. unfold mem_of in HM. rewrite Hr in HM. cbn in HM. congruence.
+        + intros k'. change (mem_of h6 k') with (mem_of h5 k'). unfold mem_of, room_of. rewrite A2. unfold h2, h1, put_sess.
+          cbn [h_rooms set_vtable set_sessions set_rooms h0 set_nextsid]. rewrite pget_pset. destruct (pair_eqb k' k); reflexivity.
+        + unfold h6. rewrite bus_publish, A3. reflexivity.
+        + rewrite A4. apply N.le_refl.
+      - intros t Ht. change (get_sess h6 vs) with (get_sess h5 vs) in Ht. rewrite Hg5, N.eqb_refl in Ht. injection Ht as <-. reflexivity. }
+    assert (W6 : WFg none2 none1 h6) by (apply Hpub; exact W5).
+    set (h7 := publish h6 (SubjRoom (fst k) (snd k)) (AEvent (SPart 0) 0 false)).
+    assert (WJ7 : WJ none2 no1 h7 g) by (apply WJ_publish_neutral; [reflexivity|exact I|split; assumption]).
+    match goal with |- context [if N.eqb ?fl 0 then h7 else ?hp] => set (h8 := if N.eqb fl 0 then h7 else hp) end.
+    assert (WJ8 : WJ none2 no1 h8 g).
+    { unfold h8. destruct (N.eqb _ 0); [exact WJ7|]. apply WJ_publish_neutral; [reflexivity|exact I|exact WJ7]. }
+    assert (Hg8 : forall x, get_sess h8 x = get_sess h5 x) by (intros x; unfold h8; destruct (N.eqb _ 0); reflexivity).
+    set (h9 := publish h8 (SubjBackendRoom (fst k) (snd k)) (ASessionJoined vs false)).
+    assert (WJ9 : WJ none2 no1 h9 g).
+    { destruct WJ8 as [W8 [H8 V8]]. split; [now apply Hpub|]. split.
+      - apply Jh_publish; [exact H8|exact I|]. intros b rr x i t Hsu Hm Ht. injection Hsu as <- <-. injection Hm as <- _.
+        rewrite Hg8, Hg5, N.eqb_refl in Ht. injection Ht as <-. right. reflexivity.
+      - unfold h9. rewrite bus_publish. intros x t Ht Hvt Hx. apply view_ok_app_none; [|now apply V8].
+        intros k' M _. rewrite pub_op_asj. destruct (N.eqb_spec vs x) as [<-|]; [|now rewrite andb_false_r].
+        change (get_sess h8 vs = Some t) in Ht. rewrite Hg8, Hg5, N.eqb_refl in Ht. injection Ht as <-. discriminate. }
+    match goal with |- context [let '(h10, outs10) := match ?pvx with Some _ => _ | None => _ end in _] => destruct pvx as [pv|] end.
+    + destruct WJ9 as [W9 J9]. pose proof (Jg_close_one none2 none1 no1 h9 g pv W9 J9) as J10.
+      pose proof (close_one_irr h9 pv) as I10. fold h6 h7 h8 h9.
+      destruct (close_one h9 pv) as [h10 o10]. cbn [fst snd] in *. rewrite gouts_cons. exact J10.
+    + fold h6 h7 h8 h9. cbn [fst snd]. rewrite gouts_cons. apply WJ9.
+  - (* update *)
+    set (k := (s_backend s, rn)).
+    destruct (room_of h k) as [r|]; [|exact HJ]. destruct (pget (h_vtable h) (sid, v)) as [vs|]; [|exact HJ].
+    destruct (get_sess h vs) as [t|] eqn:Ht; [|exact HJ]. cbn [fst snd]. rewrite gouts_nil.
+    match goal with |- context [put_sess h vs ?t1] => set (h1 := put_sess h vs t1) end.
+    assert (J1 : Jg none2 no1 h1 g) by (eapply Jg_same; [apply (same_put h vs t); [exact Ht|reflexivity|now apply pend_ok_eq]|exact HJ]).
+    repeat match goal with |- context [if ?c then _ else _] => destruct c end;
+      repeat (apply Jg_publish_neutral; [reflexivity|exact I|]); try (eapply Jg_same; [apply same_set_incall|]);
+      repeat (apply Jg_publish_neutral; [reflexivity|exact I|]); exact J1.
+  - (* remove *)
+    set (k := (s_backend s, rn)).
+    destruct (room_of h k) as [r|]; [|exact HJ]. destruct (pget (h_vtable h) (sid, v)) as [vs|] eqn:Hv; [|exact HJ].
+    apply (Jg_close_one none2 none1); [apply wf_del_vt; exact W|].
+    eapply Jg_same; [|exact HJ]. apply same_fields; try reflexivity; apply N.le_refl.
+  - (* in-call flags of the internal client itself *)
+    destruct (N.eqb ic (s_incall s)); [exact HJ|].
+    match goal with |- context [put_sess h sid ?t1] => set (h1 := put_sess h sid t1) end.
+    assert (J1 : Jg none2 no1 h1 g) by (eapply Jg_same; [apply (same_put h sid s); [exact Hs|reflexivity|now apply pend_ok_eq]|exact HJ]).
+    destruct (s_room s) as [k|]; [|exact J1].
+    destruct (N.testbit ic 0).
+    + cbn [fst snd]. rewrite gouts_nil. apply Jg_publish_neutral; [reflexivity|exact I|]. eapply Jg_same; [apply same_set_incall|exact J1].
+    + pose proof (quiet_leave_call (set_incall h1 k sid false) sid) as Q.
+      destruct (leave_call (set_incall h1 k sid false) sid) as [h2 o2]. cbn [fst snd].
+      apply Jg_publish_neutral; [reflexivity|exact I|]. apply (Jg_quiet none2 no1 (set_incall h1 k sid false) g (h2, o2) Q).
+      eapply Jg_same; [apply same_set_incall|exact J1].
+Qed.
